@@ -114,12 +114,17 @@ Proof. destruct toks; reflexivity. Qed.
 
 Lemma collect_spec (P : Z * smsg -> bool) toks l :
   (forall im, In im l -> eval_tokens go_text (to_msg im) toks = Some (P im)) ->
-  collect_seq go_text toks (map to_msg l) = Some (map fst (filter P l)).
+  collect_seq go_text toks (map to_msg l) = Some (map to_msg (filter P l)).
 Proof.
   induction l as [|im l IH]; intros H; [reflexivity|].
   cbn [map collect_seq]. rewrite msc_eq, (H im) by now left. rewrite IH by (intros; apply H; now right).
-  cbn [filter]. destruct (P im); [|reflexivity]. destruct im. reflexivity.
+  cbn [filter]. destruct (P im); reflexivity.
 Qed.
+
+Lemma map_seq_to_msg l : map m_seq (map to_msg l) = map fst l.
+Proof. induction l as [|[i m] l IH]; [reflexivity|]. cbn [map to_msg m_seq fst]. now rewrite IH. Qed.
+Lemma map_uid_to_msg l : map m_uid (map to_msg l) = map (fun '(i, m) => s_uid m) l.
+Proof. induction l as [|[i m] l IH]; [reflexivity|]. cbn [map to_msg m_uid]. now rewrite IH. Qed.
 
 Lemma classify_supported ks mb : classify ks mb = None -> forallb supported ks = true.
 Proof.
@@ -133,6 +138,20 @@ Proof.
   - discriminate.
 Qed.
 
+(** the evaluator on the printed program selects exactly the specified entries *)
+Lemma evaluate_exact ks mb : wf_prog ks = true -> mb_ok mb = true -> classify ks mb = None ->
+  evaluate_search_criteria go_text (to_msgs mb) (print_prog ks)
+  = Some (map to_msg (filter (fun '(i, m) => spec_all (Z.of_nat (length mb)) (max_uid mb) ks i m) (numbered mb))).
+Proof.
+  intros W Hmb C. unfold evaluate_search_criteria.
+  pose proof (print_not_blank ks mb W C) as NB. destruct (trim_space (print_prog ks)) eqn:E; [congruence|]. clear E NB.
+  assert (W' : forallb wf_key ks = true) by (unfold wf_prog in W; now destruct ks).
+  unfold print_prog. rewrite parse_print by (eapply prog_toks_ok; eassumption).
+  unfold to_msgs.
+  apply (collect_spec (fun '(i, m) => spec_all (Z.of_nat (length mb)) (max_uid mb) ks i m)).
+  intros [i sm] Hin. now apply eval_tokens_prog with (mb := mb).
+Qed.
+
 (** SEARCH (message.evaluateSearchCriteria on the printed program) returns
     exactly the specified sequence numbers *)
 Theorem search_exact ks mb : wf_prog ks = true -> mb_ok mb = true -> classify ks mb = None ->
@@ -140,27 +159,31 @@ Theorem search_exact ks mb : wf_prog ks = true -> mb_ok mb = true -> classify ks
   /\ spec_search ks mb = SOk (spec_search_list ks mb).
 Proof.
   intros W Hmb C. split.
-  - unfold search, evaluate_search_criteria.
-    pose proof (print_not_blank ks mb W C) as NB. destruct (trim_space (print_prog ks)) eqn:E; [congruence|]. clear E NB.
-    assert (W' : forallb wf_key ks = true) by (unfold wf_prog in W; now destruct ks).
-    unfold print_prog. rewrite parse_print by (eapply prog_toks_ok; eassumption).
-    unfold to_msgs, spec_search_list.
-    apply (collect_spec (fun '(i, m) => spec_all (Z.of_nat (length mb)) (max_uid mb) ks i m)).
-    intros [i sm] Hin. now apply eval_tokens_prog with (mb := mb).
+  - unfold search. rewrite (evaluate_exact ks mb W Hmb C). cbn [option_map]. now rewrite map_seq_to_msg.
   - unfold spec_search. now rewrite (classify_supported ks mb C).
 Qed.
 
+(** UID SEARCH: the same entries, their UIDs *)
+Theorem uid_search_exact ks mb : wf_prog ks = true -> mb_ok mb = true -> classify ks mb = None ->
+  uid_search (to_msgs mb) (print_prog ks) = Some (spec_uid_search_list ks mb)
+  /\ spec_uid_search ks mb = SOk (spec_uid_search_list ks mb).
+Proof.
+  intros W Hmb C. split.
+  - unfold uid_search. rewrite (evaluate_exact ks mb W Hmb C). cbn [option_map]. now rewrite map_uid_to_msg.
+  - unfold spec_uid_search. now rewrite (classify_supported ks mb C).
+Qed.
+
 (** ** ascending, duplicate free, for every criteria string and every text semantics *)
-Lemma collect_sorted T toks msgs : forall l,
-  StronglySorted Z.lt (map m_seq msgs) -> collect_seq T toks msgs = Some l ->
-  StronglySorted Z.lt l /\ incl l (map m_seq msgs).
+Lemma collect_sorted (proj : msg -> Z) T toks msgs : forall l,
+  StronglySorted Z.lt (map proj msgs) -> collect_seq T toks msgs = Some l ->
+  StronglySorted Z.lt (map proj l) /\ incl (map proj l) (map proj msgs).
 Proof.
   induction msgs as [|m ms IH]; intros l S H; cbn [collect_seq] in H.
   - injection H as <-. split; [constructor | intros x []].
   - destruct (matches_search_criteria T m toks) as [b|]; [|discriminate].
     destruct (collect_seq T toks ms) as [l'|] eqn:E; [|discriminate]. injection H as <-.
     cbn [map] in S. apply StronglySorted_inv in S as [S1 S2]. destruct (IH l' S1 eq_refl) as [I1 I2].
-    destruct b.
+    destruct b; cbn [map].
     + split.
       * constructor; [exact I1|]. rewrite Forall_forall in *. intros x Hx. apply S2. now apply I2.
       * intros x [<- | Hx]; [now left | right; now apply I2].
@@ -173,46 +196,27 @@ Proof.
   intros Hx. rewrite Forall_forall in F. specialize (F x Hx). lia.
 Qed.
 
-Theorem search_ascending T parts msgs l :
-  StronglySorted Z.lt (map m_seq msgs) -> handle_search T parts msgs = ROk l ->
-  StronglySorted Z.lt l /\ NoDup l /\ incl l (map m_seq msgs).
+(** ascending, duplicate free, inside the mailbox: SEARCH (sequence numbers) and
+    UID SEARCH (UIDs), for every argument list, text semantics and listing *)
+Theorem selected_ascending T args (by_uid : bool) msgs l :
+  StronglySorted Z.lt (map (if by_uid then m_uid else m_seq) msgs) -> search_selected T args by_uid msgs = ROk l ->
+  StronglySorted Z.lt l /\ NoDup l /\ incl l (map (if by_uid then m_uid else m_seq) msgs).
 Proof.
-  intros S H. unfold handle_search in H.
-  destruct (Z.of_nat (length parts) <? 3); [discriminate|].
+  intros S H. unfold search_selected in H.
+  destruct (length args <? 1)%nat; [discriminate|].
   match type of H with (if ?c then _ else _) = _ => destruct c; [discriminate|] end.
   match type of H with (if ?c then _ else _) = _ => destruct c; [discriminate|] end.
   match type of H with match ?e with _ => _ end = _ => destruct e as [l'|] eqn:E; [|discriminate] end.
   injection H as <-. unfold evaluate_search_criteria in E.
-  destruct (collect_sorted _ _ _ _ S E) as [A B]. repeat split; try assumption. now apply sorted_nodup.
+  destruct (collect_sorted _ _ _ _ _ S E) as [A B]. repeat split; try assumption. now apply sorted_nodup.
 Qed.
 
-Lemma filter_sorted (f : msg -> bool) msgs : StronglySorted Z.lt (map m_uid msgs) ->
-  StronglySorted Z.lt (map m_uid (filter f msgs)) /\ incl (map m_uid (filter f msgs)) (map m_uid msgs).
-Proof.
-  induction msgs as [|m ms IH]; intros S; [split; [constructor | intros x []]|].
-  cbn [map] in S. apply StronglySorted_inv in S as [S1 S2]. destruct (IH S1) as [I1 I2]. cbn [filter].
-  destruct (f m); cbn [map].
-  - split; [constructor; [exact I1|]; rewrite Forall_forall in *; intros x Hx; apply S2; now apply I2
-           | intros x [<- | Hx]; [now left | right; now apply I2]].
-  - split; [exact I1 | intros x Hx; right; now apply I2].
-Qed.
+Theorem search_ascending T parts msgs l :
+  StronglySorted Z.lt (map m_seq msgs) -> handle_search T parts msgs = ROk l ->
+  StronglySorted Z.lt l /\ NoDup l /\ incl l (map m_seq msgs).
+Proof. intros S H. exact (selected_ascending T _ false msgs l S H). Qed.
 
-Theorem uid_search_ascending parts msgs l :
-  StronglySorted Z.lt (map m_uid msgs) -> handle_uid_search parts msgs = ROk l ->
+Theorem uid_search_ascending T parts msgs l :
+  StronglySorted Z.lt (map m_uid msgs) -> handle_uid_search T parts msgs = ROk l ->
   StronglySorted Z.lt l /\ NoDup l /\ incl l (map m_uid msgs).
-Proof.
-  intros S H.
-  assert (K : l = [] \/ l = map m_uid msgs \/ exists f, l = map m_uid (filter f msgs)).
-  { unfold handle_uid_search in H.
-    destruct (Z.of_nat (length parts) <? 4); [discriminate|].
-    match type of H with (if ?c then _ else _) = _ => destruct c end; [injection H as <-; auto|].
-    match type of H with (if ?c then _ else _) = _ => destruct c end; [|injection H as <-; auto].
-    destruct (uid_range_of _) as [r|]; [|injection H as <-; auto].
-    destruct (contains r [colon]); [|injection H as <-; auto].
-    destruct (split_byte r colon) as [|a [|b [|? ?]]]; try (injection H as <-; auto).
-    right. right. eexists. reflexivity. }
-  destruct K as [-> | [-> | [f ->]]].
-  - repeat split; [constructor | constructor | intros x []].
-  - repeat split; [exact S | now apply sorted_nodup | apply incl_refl].
-  - destruct (filter_sorted f msgs S) as [A B]. repeat split; [exact A | now apply sorted_nodup | exact B].
-Qed.
+Proof. intros S H. exact (selected_ascending T _ true msgs l S H). Qed.
